@@ -14,7 +14,7 @@ RULE = ("decoders: 12 unmarshall_datain (INQUIRY standard and every VPD page, MO
         "TransportID decoder, designator decoder, SCSICheckCondition. Base buffers: well-formed multi-descriptor responses from the C04 encoders "
         "(<= 200 bytes) and all-00 / all-FF / 00..FF-ramp buffers of every length 0..64. Deviations: every byte position x all 256 values "
         "(first 48 bytes; {00,01,7F,80,FF} beyond); every pair of positions among the first 12 bytes (thorough: 24) x {00,01,7F,80,FF}^2; every "
-        "truncation length. Budget: 2000 + 1000 x len(buffer) traced source lines inside /repo/pyscsi; exceeding it is the violation. "
+        "truncation length. buffers of 65560 and 70001 bytes (00 / FF, long well-formed lists for GET LBA STATUS, REPORT LUNS, READ KEYS, VPD pages of FFFCh bytes) with header corruptions. Budget: 2000 + 1000 x len(buffer) (300 per byte beyond 4 KiB) traced source lines inside /repo/pyscsi; exceeding it is the violation. "
         "Non-trivial = buffer differs from the well-formed base; distinct = distinct (decoder, buffer).")
 ASSUMPTIONS = [
     "work is measured in executed Python source lines inside the library (sys.settrace); the budget 2000 + 1000 lines per buffer byte is about 5x the worst terminating cost measured (READ ELEMENT STATUS with a hostile descriptor length of 1: ~200 lines per byte); evidence key max_lines_within_budget reports the measured maxima per decoder",
@@ -29,6 +29,12 @@ class BudgetExceeded(BaseException):
 
 class CpuExceeded(BudgetExceeded):
     pass
+
+
+def budget_for(nbytes):
+    """traced source lines allowed for one decode: 2000 + 1000 per byte up to 4 KiB, 300 per byte beyond (the worst terminating
+    decoder measured needs ~200 per byte)"""
+    return 2000 + 1000 * min(nbytes, 4096) + 300 * max(0, nbytes - 4096)
 
 
 def cpu_limit(nbytes):
@@ -187,6 +193,22 @@ def base_buffers(name):
     if name == "transportid":
         from vf.spec import responses as R
         out += [("wellformed", R.transport_id(t)) for t in c04.TIDS]
+    # buffers beyond 64 KiB (allocation lengths are 16/32-bit fields): constant content, and a long well-formed list where the format has one
+    for n in (65560, 70001):
+        out.append(("big", bytes(n)))
+        out.append(("big", b"\xff" * n))
+    if name == "getlbastatus":
+        from vf.spec import responses as R
+        out.append(("big", R.get_lba_status([{"lba": 16 * i, "num_blocks": 16, "p_status": i % 3} for i in range(4200)])))
+    if name == "reportluns":
+        from vf.spec import responses as R
+        out.append(("big", R.report_luns([i << 48 for i in range(8300)])))
+    if name == "prkeys":
+        from vf.spec import responses as R
+        out.append(("big", R.pr_read_keys(7, list(range(8300)))))
+    if name == "inquiry_vpd":
+        out.append(("big", bytes([0, 0x80, 0xFF, 0xFC]) + b"S" * 0xFFFC))
+        out.append(("big", bytes([0, 0x00, 0xFF, 0xFC]) + bytes(i & 0xFF for i in range(0xFFFC))))
     for n in range(0, 65):
         out.append(("const00", bytes(n)))
         out.append(("constFF", b"\xff" * n))
@@ -209,7 +231,7 @@ def run_case(case, obs=None):
     name, hexbuf = case
     buf = bytes.fromhex(hexbuf)
     fn = decoders()[name]
-    budget = 2000 + 1000 * len(buf)
+    budget = budget_for(len(buf))
     over, lines = guarded(lambda: fn(bytearray(buf)), budget, len(buf))
     if obs is not None:
         obs.append(lines)
@@ -236,7 +258,7 @@ def run_partition(part, tier, seed):
 
     def do(buf, nontrivial):
         nonlocal maxlines
-        budget = 2000 + 1000 * len(buf)
+        budget = budget_for(len(buf))
         over, lines = guarded(lambda: fn(bytearray(buf)), budget, len(buf))
         maxlines = max(maxlines, lines if not over else 0)
         acc.evaluations += 1
@@ -273,6 +295,14 @@ def _explore(name, chunk, nchunks, span, do):
         if bi % nchunks != chunk:
             continue
         do(base, kind != "wellformed")
+        if kind == "big":
+            # (single-byte corruptions of the header only: the first 8 bytes x {00,01,FF})
+            if len(base) != 70001:
+                for i in range(8):
+                    for v in (0x00, 0x01, 0xFF):
+                        if base[i] != v:
+                            do(base[:i] + bytes([v]) + base[i + 1:], True)
+            continue
         if kind != "wellformed":
             # constant buffers of every length: all 256 values on the first 8 positions (lengths 4,8,12,16,24,32,64), the 5-value alphabet otherwise / on the next 16
             for i in range(min(24, len(base))):
